@@ -165,7 +165,7 @@ Theorem typed_calls_are_insert_sorted cfg l id o :
 Proof.
   unfold cfg_goodb. intros Hc Hs Hg.
   repeat (apply andb_true_iff in Hc as [Hc ?]).
-  destruct o as [| | | | | |c|]; cbn [step_cfg step_ref op_class]; try reflexivity.
+  destruct o as [| | | | | |cn|c|]; cbn [step_cfg step_ref op_class]; try reflexivity.
   - eapply place_good_sound; eauto using no_gen_five.
   - eapply place_good_sound; eauto using no_gen_five.
   - match goal with H : fmt_clears_first cfg = true |- _ => rewrite H end.
@@ -268,7 +268,7 @@ Proof.
   { intros c'. destruct (cls_eqb c c') eqn:E.
     - apply cls_eqb_eq in E. subst c'. apply of_class_insert_same, Hs.
     - apply of_class_insert_other. cbn. apply cls_eqb_neq in E. congruence. }
-  destruct o as [| | | | | |c'|]; cbn [step_ref log_step op_class]; try apply Hins.
+  destruct o as [| | | | | |cn|c'|]; cbn [step_ref log_step op_class]; try apply Hins.
   - destruct (cls_eqb c Fmt) eqn:E.
     + apply cls_eqb_eq in E. subst c. rewrite of_class_insert_same by (apply clear_sorted, Hs).
       rewrite of_class_clear_same. reflexivity.
@@ -279,6 +279,7 @@ Proof.
       rewrite of_class_clear_same. reflexivity.
     + apply cls_eqb_neq in E. rewrite of_class_insert_other by (cbn; congruence).
       apply of_class_clear_other, E.
+  - reflexivity.
   - destruct (cls_eqb c c') eqn:E.
     + apply cls_eqb_eq in E. subst c'. apply of_class_clear_same.
     + apply cls_eqb_neq in E. apply of_class_clear_other, E.
@@ -382,9 +383,9 @@ Proof.
   assert (Hnil : ids_increasing [] = true /\ ids_below (S id) []) by (split; [reflexivity|constructor]).
   assert (Hone : ids_increasing [(Fmt, h)] = true /\ ids_below (S id) [(Fmt, h)]).
   { split; [reflexivity|]. constructor; [cbn; lia|constructor]. }
-  destruct o as [| | | | | |c'|]; cbn [log_step op_class] in *;
+  destruct o as [| | | | | |cn|c'|]; cbn [log_step op_class] in *;
     try (destruct (cls_eqb c _); [(apply Hsn, Hfresh; discriminate) || exact Hnil || exact Hone|split; assumption]);
-    try exact Hnil.
+    try exact Hnil; try (split; assumption).
 Qed.
 Lemma next_lastf_below lastf id o : (forall f, lastf = Some f -> f < id) ->
   forall f, next_lastf lastf id o = Some f -> f < S id.
@@ -406,7 +407,7 @@ Proof. apply log_from_inv; [discriminate|reflexivity|constructor]. Qed.
 
 Lemma fmt_log_step lg id o : length lg <= 1 -> length (log_step Fmt lg id o) <= 1.
 Proof.
-  intros H. destruct o as [| | | | | |c'|]; cbn [log_step op_class]; try exact H;
+  intros H. destruct o as [| | | | | |cn|c'|]; cbn [log_step op_class]; try exact H;
     try (destruct (cls_eqb Fmt _); [cbn; lia|exact H]); cbn; lia.
 Qed.
 Lemma fmt_log_from : forall ops lg lastf id, length lg <= 1 -> length (log_from Fmt lg lastf id ops) <= 1.
@@ -419,7 +420,7 @@ Lemma log_from_class c : forall ops lg lastf id, Forall (fun y : hnd => fst y = 
   Forall (fun y : hnd => fst y = c) (log_from c lg lastf id ops).
 Proof.
   induction ops as [|o ops IH]; intros lg lastf id H; [exact H|]. cbn [log_from]. apply IH.
-  destruct o as [| | | | | |c'|]; cbn [log_step op_class]; try (destruct (cls_eqb c _) eqn:E); try exact H;
+  destruct o as [| | | | | |cn|c'|]; cbn [log_step op_class]; try (destruct (cls_eqb c _) eqn:E); try exact H;
     try (apply Forall_app; split; [exact H|constructor; [reflexivity|constructor]]); try constructor;
     try (apply cls_eqb_eq in E; subst c; reflexivity); try constructor.
 Qed.
